@@ -262,6 +262,28 @@ func c18Run(c *vfCtx, cs c18Case) {
 		t3.end()
 		if len(t3.errs)+len(t3.logs) > 0 {
 			c.violation(class, fmt.Sprintf("replay of %q after Clean re-sorted the file: errors %v logs %v", vfClip(cs.Text), t3.errs, t3.logs), cs)
+			return
+		}
+		// slot 1 (not the last entry of the file) is updated to a longer document and then back to this one: both rewrites
+		// leave the other entry alone, and the document is again stored exactly as given
+		grown := "grown:\n  - one more line than before\n  - and another one\nkey: value that is longer than the document it replaces\npad:\n" + strings.Repeat("  - x\n", 3)
+		ucfg := WithConfig(Dir(dir), Filename("f"), Update(true))
+		for i, doc := range []any{grown, in} {
+			vfResetState(false, "", true)
+			t4 := &vfT{name: "TestA"}
+			ucfg.MatchYAML(t4, doc)
+			cfg.MatchYAML(t4, "second: 1\n")
+			t4.end()
+			c.count("transitions", 2)
+			es4, err := vfParse(vfSnapDir(dir)["f.snap"].Data)
+			wantBody := es2[0].Body
+			if i == 0 {
+				wantBody = strings.TrimSuffix(grown, "\n") + "\n"
+			}
+			if len(t4.errs) > 0 || err != nil || len(es4) != 2 || es4[1].Body != es2[1].Body || es4[1].ID != "TestA - 2" || es4[0].ID != "TestA - 1" || (i == 1 && es4[0].Body != wantBody) {
+				c.violation(class, fmt.Sprintf("update %d of slot 1 (first to a longer document, then back to %q): errors %v, file holds %s (%v); the second entry must stay %q", i+1, vfClip(cs.Text), t4.errs, vfShowEntries(es4), err, vfClip(es2[1].Body)), cs)
+				return
+			}
 		}
 	}
 }
